@@ -305,3 +305,76 @@ def capture_operand(fx, f, idx):
             if st["r"].get("def") == f["def"] and idx < len(st["r"]["ops"]):
                 return parent, st["r"]["ops"][idx]
     return None
+
+
+CALLABLE_CALLS = ("::FnOnce::call_once", "::FnMut::call_mut", "::Fn::call")
+
+
+def supplied_maker(fx, b, f, r, roots, body_of, depth=0):
+    """`r` is a root of kind call:..FnOnce::call_once in body `b` of function `f`: the value is what a callable returns.
+    Returns the set of things that callable can be, followed from a capture / parameter to the crate-local callers of the
+    function that was given it: {"fn:<path>"} for a function item, {"closure:<def>"} for a closure literal, {"arg"} when it
+    comes from a parameter of a public function (supplied by the user), {"?"} otherwise."""
+    if not r.kind.startswith("call:") or not r.kind.endswith(CALLABLE_CALLS):
+        return {"?"}
+    t = b.blocks[r.site[0]]["t"]
+    return _callable_of(fx, b, f, t["args"][0], roots, body_of, depth)
+
+
+def _callable_of(fx, b, f, operand, roots, body_of, depth):
+    out = set()
+    if isinstance(operand, dict) and operand.get("k") == "const":
+        return {"fn:" + operand["fn"]} if operand.get("fn") else {"?"}
+    # a closure literal (possibly capturing nothing, which `roots` would see through to nothing at all)
+    direct = b.origins(operand)
+    lits = [o for o in direct if o.kind == "agg" and not o.proj and b.blocks[o.site[0]]["s"][o.site[1]]["r"].get("ak") == "closure"]
+    if lits and len(lits) == len(direct):
+        return {"closure:" + (b.blocks[o.site[0]]["s"][o.site[1]]["r"].get("def") or "?") for o in lits}
+    for o in roots(b, operand):
+        if o.kind == "agg":
+            st = b.blocks[o.site[0]]["s"][o.site[1]]
+            out.add("closure:" + (st["r"].get("def") or "?") if st["r"].get("ak") == "closure" else "?")
+        elif o.kind == "const":
+            out.add("?")
+        elif o.kind == "upvar" and depth < 3:
+            # a capture of this closure / coroutine: what the creating function put there
+            parent = fx.fn(f.get("parent") or "")
+            if parent is None:
+                out.add("?")
+                continue
+            pb = body_of(parent)
+            from mir import agg_sites
+            hit = False
+            for _bi, _si, st in agg_sites(pb, ak=f["kind"] if f["kind"] in ("closure", "coroutine") else "closure"):
+                if st["r"].get("def") == f["def"] and o.site < len(st["r"]["ops"]):
+                    hit = True
+                    out |= _callable_of(fx, pb, parent, st["r"]["ops"][o.site], roots, body_of, depth + 1)
+            if not hit:
+                out.add("?")
+        elif o.kind == "arg" and depth < 3:
+            callers = [(g, t) for g, _bi, t in all_calls(fx, lambda t, _n=f["def"]: (t.get("resolved") or t.get("callee")) == _n)]
+            if f.get("vis") == "pub" and f["kind"] == "fn" or not callers:
+                out.add("arg")
+                continue
+            for g, t in callers:
+                if o.site - 1 < len(t["args"]):
+                    out |= _callable_of(fx, body_of(g), g, t["args"][o.site - 1], roots, body_of, depth + 1)
+                else:
+                    out.add("?")
+        else:
+            out.add("?")
+    return out or {"?"}
+
+
+def maker_is_default(fx, m, roots, body_of):
+    """one element of supplied_maker(): is it `Default::default` — the function item, or a closure that returns it"""
+    if m == "fn:core::default::Default::default":
+        return True
+    if m.startswith("closure:"):
+        c = fx.fn(m[len("closure:"):])
+        if c is None:
+            return False
+        cb = body_of(c)
+        rs = roots(cb, {"k": "move", "p": [0]})
+        return bool(rs) and all(r.kind == "call:core::default::Default::default" for r in rs)
+    return False
